@@ -47,9 +47,11 @@ def c18_1(c: Ctx) -> None:
             return True
         if n.kind in ('stmt', 'return') and any(isinstance(x.func, ast.Name) and x.func.id in helpers for x in q.node_calls(n)):
             return True
-        if n.kind == 'if' and any(rm(x) for b in n.ast.body for x in ast.walk(b)):
-            conj = n.ast.test.values if isinstance(n.ast.test, ast.BoolOp) and isinstance(n.ast.test.op, ast.And) else [n.ast.test]
-            # "remove if present": every conjunct is a presence test on self.handlers (membership, or the looked-up list is there / not empty)
+        in_body = n.kind == 'if' and any(rm(x) for b in n.ast.body for x in ast.walk(b))
+        in_else = n.kind == 'if' and any(rm(x) for b in n.ast.orelse for x in ast.walk(b))
+        if in_body != in_else:
+            # "remove if present": the branch that skips the removal is taken only when the handler is not there — its condition (the negated test, or the test itself when
+            # the removal sits in the else branch) is a disjunction of absence tests on self.handlers (no list / empty list / not a member), in any spelling
             def presence(x) -> bool:
                 if isinstance(x, ast.Compare) and len(x.ops) == 1 and isinstance(x.ops[0], ast.In):
                     return f'{self_}.handlers' in U(x.comparators[0])
@@ -58,7 +60,19 @@ def c18_1(c: Ctx) -> None:
                 return (isinstance(x, ast.Call) and call_name(x) == 'get' and U(x.func.value) == f'{self_}.handlers' and len(x.args) == 1) or \
                     (isinstance(x, ast.Subscript) and U(x.value) == f'{self_}.handlers')
 
-            return all(presence(x) for x in conj)
+            from .c15 import _nnf_disjuncts
+
+            lits = _nnf_disjuncts(n.ast.test, neg=in_body)
+            if lits is None:
+                return False
+            for v, negv in lits:
+                if isinstance(v, ast.Compare) and len(v.ops) == 1 and isinstance(v.ops[0], (ast.NotIn, ast.Is)):
+                    # `h not in X` is `not (h in X)`; `X is None` is `not (X is not None)`
+                    v = ast.Compare(left=v.left, ops=[ast.In() if isinstance(v.ops[0], ast.NotIn) else ast.IsNot()], comparators=v.comparators)
+                    negv = not negv
+                if not (negv and presence(v)):
+                    return False
+            return True
         return False
 
     bad = None
@@ -105,16 +119,28 @@ def c18_2(c: Ctx) -> None:
 
         # names defined in expect's own body (the key may be computed there and used by a nested helper)
         snap: dict = {}
-        pre = AbsInt(on_stmt=lambda st, env: snap.update(env))
-        pre.run(u.node.body, {tparam: val})
+        registered: list[object] = []
+        reg_stmt = q.stmt_of(reg)
+
+        def pre_stmt(st, env, snap=snap, registered=registered):
+            snap.update(env)
+            if st is reg_stmt:
+                registered.append(pre.ev(reg.args[0], env))  # what on() is handed: the caller's pattern, or something expect derived from it
+
+        pre = AbsInt(on_stmt=pre_stmt)
+        pattern_param = tparam if tparam in u.params() else u.params()[1]
+        pre.run(u.node.body, {pattern_param: val})
         env0 = {k: v for k, v in snap.items()}
-        env0[tparam] = val
+        env0[pattern_param] = val
         ai = AbsInt(on_stmt=on_stmt)
         ai.run(block, env0)
         if not seen:
             raise AnalysisError(f'expect: the removal statement was not reached when evaluating the cleanup block for pattern kind {desc}')
         got = seen[-1]
-        reg_key = on_key_for(c, val)
+        reg_val = registered[-1] if registered else val
+        if reg_val is UNKNOWN:
+            raise AnalysisError(f'expect: what is handed to on() is undecided for pattern kind {desc}')
+        reg_key = on_key_for(c, reg_val)
         if got is UNKNOWN or reg_key is UNKNOWN:
             raise AnalysisError(f'expect: removal key undecided for pattern kind {desc}')
         if got == reg_key:
@@ -132,6 +158,7 @@ def c18_3(c: Ctx) -> None:
     params = u.params()
     # what a local name of expect stands for, as a conjunction of the caller's filters: `include = lambda e, include=include: include(e) and predicate(e)` -> {include, predicate}
     comp: dict[str, set[str]] = {}
+    carries_exclude: set[str] = set()
     for n in own_nodes(u.node):
         if isinstance(n, ast.Assign) and len(n.targets) == 1 and isinstance(n.targets[0], ast.Name) and isinstance(n.value, ast.Lambda):
             lam = n.value
@@ -140,10 +167,19 @@ def c18_3(c: Ctx) -> None:
             arg = lam.args.args[0].arg
             defaults = {a.arg: U(d) for a, d in zip(lam.args.args[-len(lam.args.defaults):], lam.args.defaults)} if lam.args.defaults else {}
             body = lam.body
+            while isinstance(body, ast.Call) and isinstance(body.func, ast.Name) and body.func.id == 'bool' and len(body.args) == 1 and not body.keywords:
+                body = body.args[0]
             vals = body.values if isinstance(body, ast.BoolOp) and isinstance(body.op, ast.And) else [body]
-            if all(isinstance(v, ast.Call) and len(v.args) == 1 and U(v.args[0]) == arg and isinstance(v.func, ast.Name) for v in vals):
+            # a conjunct `not exclude(e)` makes the composite filter carry the exclusion as well
+            negs = [v.operand for v in vals if isinstance(v, ast.UnaryOp) and isinstance(v.op, ast.Not)]
+            vals = [v for v in vals if not (isinstance(v, ast.UnaryOp) and isinstance(v.op, ast.Not))]
+            if all(isinstance(v, ast.Call) and len(v.args) == 1 and U(v.args[0]) == arg and isinstance(v.func, ast.Name) for v in vals + negs) and all(U(v.func) == 'exclude' for v in negs):
                 comp[n.targets[0].id] = {defaults.get(v.func.id, v.func.id) for v in vals}
+                if negs:
+                    carries_exclude.add(n.targets[0].id)
     copies = {n.targets[0].id: U(n.value) for n in own_nodes(u.node) if isinstance(n, ast.Assign) and len(n.targets) == 1 and isinstance(n.targets[0], ast.Name) and isinstance(n.value, ast.Name)}
+    copies.update({n.target.id: U(n.value) for n in own_nodes(u.node) if isinstance(n, ast.AnnAssign) and isinstance(n.target, ast.Name) and isinstance(n.value, ast.Name)})
+    copies = {k: v for k, v in copies.items() if k != v}
 
     def stands_for(name: str, depth: int = 0) -> set[str]:
         out: set[str] = set()
@@ -173,7 +209,7 @@ def c18_3(c: Ctx) -> None:
         atoms = {f'{fut}.done()', f'exclude({ev})'} | {f'{f}({ev})' for f in chosen}
         # (the temporary handler is synchronous and the future is private to this expect() call: the caller's filters, opaque callbacks, cannot resolve it)
         facts = Facts(lambda a: a in atoms, cg=None, stable={f'{fut}.done()'} if not h.is_async else set())
-        guard = ' and '.join([f'not {fut}.done()'] + [f'{f}({ev})' for f in chosen] + ([f'not exclude({ev})'] if 'exclude' in params else []))
+        guard = ' and '.join([f'not {fut}.done()'] + [f'{f}({ev})' for f in chosen] + ([f'not exclude({ev})'] if 'exclude' in params and not any(f in carries_exclude for f in chosen) else []))
         p = q.guard_search(g, sn, guard, facts)
         if p is None:
             c.ok(where(h, sn.ast), f'set_result only under {guard} (covering the caller\'s {required_pos})')
